@@ -42,6 +42,79 @@ theorem fill_drop_ok (kw dflt : List (Nat × Nat)) (ns xs : List Nat) (k : Nat) 
         | zero => simp [fill, hx, hy]
         | succ k => simpa using ih ys k hy
 
+/-! ### value tokens as key elements -/
+
+theorem asPair_inj (x y : Nat) (a : Nat × Nat) (hx : asPair x = some a) (hy : asPair y = some a) : x = y := by
+  simp only [asPair, pairBase] at hx hy
+  by_cases h1 : 1000000 ≤ x
+  · by_cases h2 : 1000000 ≤ y
+    · simp only [h1, h2, ↓reduceIte, Option.some.injEq] at hx hy
+      rw [← hy] at hx
+      have e1 := congrArg Prod.fst hx
+      have e2 := congrArg Prod.snd hx
+      simp only at e1 e2
+      omega
+    · simp [h2] at hy
+  · simp [h1] at hx
+
+/-- Python `==` on argument values as key elements: the normal form is injective -/
+theorem ofVal_inj (x y : Nat) (h : KeyElem.ofVal x = KeyElem.ofVal y) : x = y := by
+  simp only [KeyElem.ofVal] at h
+  cases hx : asPair x with
+  | none =>
+    cases hy : asPair y with
+    | none => simp only [hx, hy] at h; injection h
+    | some b => simp only [hx, hy] at h; contradiction
+  | some a =>
+    cases hy : asPair y with
+    | none => simp only [hx, hy] at h; contradiction
+    | some b =>
+      simp only [hx, hy] at h
+      injection h with h1 h2
+      have : a = b := Prod.ext h1 h2
+      subst this
+      exact asPair_inj x y a hx hy
+
+theorem map_ofVal_inj (xs ys : List Nat) (h : xs.map KeyElem.ofVal = ys.map KeyElem.ofVal) : xs = ys := by
+  induction xs generalizing ys with
+  | nil => cases ys <;> simp_all
+  | cons x xs ih =>
+    cases ys with
+    | nil => simp at h
+    | cons y ys =>
+      simp only [List.map_cons, List.cons.injEq] at h
+      rw [ofVal_inj x y h.1, ih ys h.2]
+
+theorem map_kw_inj (es fs : List (Nat × Nat))
+    (h : es.map (fun p => KeyElem.kw p.1 p.2) = fs.map (fun p => KeyElem.kw p.1 p.2)) : es = fs := by
+  induction es generalizing fs with
+  | nil => cases fs <;> simp_all
+  | cons e es ih =>
+    cases fs with
+    | nil => simp at h
+    | cons f fs =>
+      simp only [List.map_cons, List.cons.injEq, KeyElem.kw.injEq] at h
+      obtain ⟨⟨h1, h2⟩, h3⟩ := h
+      have : e = f := Prod.ext h1 h2
+      rw [this, ih fs h3]
+
+theorem map_ofVal_noPair (xs : List Nat) (h : noPair xs = true) : xs.map KeyElem.ofVal = xs.map KeyElem.v := by
+  induction xs with
+  | nil => rfl
+  | cons x xs ih =>
+    simp only [noPair, List.all_cons, Bool.and_eq_true] at h
+    have hx : asPair x = none := by
+      cases hp : asPair x with
+      | none => rfl
+      | some a => simp [hp] at h
+    simp only [List.map_cons, KeyElem.ofVal, hx]
+    rw [ih (by simpa [noPair] using h.2)]
+
+theorem noPair_drop (xs : List Nat) (n : Nat) (h : noPair xs = true) : noPair (xs.drop n) = true := by
+  simp only [noPair, List.all_eq_true] at h ⊢
+  intro x hx
+  exact h x (List.mem_of_mem_drop hx)
+
 /-- a tuple of plain values followed by keyword pairs splits uniquely -/
 theorem split_v_kw (xs ys : List Nat) (es fs : List (Nat × Nat))
     (h : xs.map KeyElem.v ++ es.map (fun p => KeyElem.kw p.1 p.2) = ys.map KeyElem.v ++ fs.map (fun p => KeyElem.kw p.1 p.2)) :
@@ -52,16 +125,7 @@ theorem split_v_kw (xs ys : List Nat) (es fs : List (Nat × Nat))
     | nil =>
       refine ⟨rfl, ?_⟩
       simp only [List.map_nil, List.nil_append] at h
-      induction es generalizing fs with
-      | nil => cases fs <;> simp_all
-      | cons e es ih =>
-        cases fs with
-        | nil => simp at h
-        | cons f fs =>
-          simp only [List.map_cons, List.cons.injEq, KeyElem.kw.injEq] at h
-          obtain ⟨⟨h1, h2⟩, h3⟩ := h
-          have : e = f := Prod.ext h1 h2
-          rw [this, ih fs h3]
+      exact map_kw_inj es fs h
     | cons y ys => cases es <;> simp at h
   | cons x xs ih =>
     cases ys with
@@ -72,12 +136,108 @@ theorem split_v_kw (xs ys : List Nat) (es fs : List (Nat × Nat))
       obtain ⟨h3, h4⟩ := ih ys h2
       exact ⟨by rw [h1, h3], h4⟩
 
+/-! ### keywords that name positional-only parameters -/
 
-/-- on a faithful signature the key of a call that binds is exactly a flat print of its binding -/
+/-- filtering the keywords by a predicate on the NAME filters the lookup -/
+theorem alook_filter (kw : List (Nat × Nat)) (q : Nat → Bool) (nm : Nat) :
+    alook (kw.filter fun p => q p.1) nm = if q nm then alook kw nm else none := by
+  induction kw with
+  | nil => simp [alook]
+  | cons p kw ih =>
+    obtain ⟨k, v⟩ := p
+    simp only [List.filter_cons]
+    by_cases hk : k = nm
+    · subst hk
+      by_cases hq : q k = true
+      · simp [hq, alook]
+      · have hq' : q k = false := by simpa using hq
+        simp only [hq', Bool.false_eq_true, ↓reduceIte] at ih ⊢
+        exact ih
+    · by_cases hq : q k = true
+      · simp only [hq, ↓reduceIte, alook, hk, ih]
+      · have hq' : q k = false := by simpa using hq
+        simp only [hq', Bool.false_eq_true, ↓reduceIte, alook, hk, ih]
+
+theorem fillOne_mono (kw : List (Nat × Nat)) (q : Nat → Bool) (dflt : List (Nat × Nat)) (n x : Nat)
+    (h : fillOne (kw.filter fun p => q p.1) dflt n = .ok x) : ∃ y, fillOne kw dflt n = .ok y := by
+  simp only [fillOne, alook_filter] at h ⊢
+  cases hd : alook dflt n with
+  | some d => exact ⟨_, rfl⟩
+  | none =>
+    simp only [hd] at h
+    by_cases hq : q n = true
+    · simp only [hq, ↓reduceIte] at h
+      cases hk : alook kw n with
+      | some z => exact ⟨z, rfl⟩
+      | none => simp [hk] at h
+    · have hq' : q n = false := by simpa using hq
+      simp [hq'] at h
+
+/-- the named part that binds with the reachable keywords also fills with all keywords (values may differ) -/
+theorem fill_mono (kw : List (Nat × Nat)) (q : Nat → Bool) (dflt : List (Nat × Nat)) (ns xs : List Nat)
+    (h : fill (kw.filter fun p => q p.1) dflt ns = .ok xs) : ∃ ys, fill kw dflt ns = .ok ys := by
+  induction ns generalizing xs with
+  | nil => exact ⟨[], rfl⟩
+  | cons n ns ih =>
+    simp only [fill] at h
+    split at h
+    · contradiction
+    · rename_i x hx
+      split at h
+      · contradiction
+      · rename_i zs hz
+        obtain ⟨y, hy⟩ := fillOne_mono kw q dflt n x hx
+        obtain ⟨ys, hys⟩ := ih zs hz
+        exact ⟨y :: ys, by simp [fill, hy, hys]⟩
+
+theorem insertPair_ne_nil (p : Nat × Nat) (l : List (Nat × Nat)) : insertPair p l ≠ [] := by
+  cases l with
+  | nil => simp [insertPair]
+  | cons q r => simp only [insertPair]; split <;> simp
+
+theorem sortPairs_eq_nil (l : List (Nat × Nat)) (h : sortPairs l = []) : l = [] := by
+  cases l with
+  | nil => rfl
+  | cons p r => exact absurd h (insertPair_ne_nil p _)
+
+/-- on a flat signature a call that binds has no keyword of a positional-only name: the keywords that can reach a
+    parameter are all keywords, and the extra keywords are those that name no parameter at all -/
+theorem flat_kw (s : Sig) (kw : List (Nat × Nat)) (hs : s.flat = true)
+    (hex : (!(sortPairs (kw.filter fun p => !s.argNames.contains p.1 || s.poNames.contains p.1)).isEmpty && !s.varkw) = false) :
+    (kw.filter fun p => !s.poNames.contains p.1) = kw ∧
+    sortPairs (kw.filter fun p => !s.argNames.contains p.1 || s.poNames.contains p.1) = extras kw s.argNames := by
+  simp only [Sig.flat, Bool.and_eq_true, Bool.or_eq_true, Bool.not_eq_true', beq_iff_eq] at hs
+  cases hs.2 with
+  | inl h0 =>
+    have : s.poNames = [] := by simp [Sig.poNames, h0]
+    simp [this, extras]
+  | inr hv =>
+    simp only [hv, Bool.not_false, Bool.and_true, Bool.not_eq_false', List.isEmpty_iff] at hex
+    have hnil := sortPairs_eq_nil _ hex
+    have hall : ∀ p ∈ kw, s.argNames.contains p.1 = true ∧ s.poNames.contains p.1 = false := by
+      intro p hp
+      have := List.filter_eq_nil_iff.mp hnil p hp
+      simp only [Bool.or_eq_true, Bool.not_eq_true', not_or, Bool.not_eq_false] at this
+      exact ⟨this.1, by simpa using this.2⟩
+    constructor
+    · apply List.filter_eq_self.mpr
+      intro p hp
+      rw [(hall p hp).2]; rfl
+    · rw [hex, extras]
+      have : (kw.filter fun p => !s.argNames.contains p.1) = [] := by
+        apply List.filter_eq_nil_iff.mpr
+        intro p hp
+        rw [(hall p hp).1]; simp
+      rw [this]; rfl
+
+/-- on a flat signature the key of a call that binds is exactly a flat print of its binding -/
 theorem key_of_bind (s : Sig) (args : List Nat) (kw : List (Nat × Nat)) (b : Binding)
-    (hs : s.ok = true) (hb : s.bind args kw = .ok b) :
-    s.key args kw = .ok ((b.params ++ b.rest).map KeyElem.v ++ b.extra.map (fun p => KeyElem.kw p.1 p.2))
-    ∧ b.params.length = s.pos.length + s.kwonly.length := by
+    (hs : s.flat = true) (hb : s.bind args kw = .ok b) :
+    s.key args kw = .ok ((b.params ++ b.rest).map KeyElem.ofVal ++ b.extra.map (fun p => KeyElem.kw p.1 p.2))
+    ∧ b.params.length = s.pos.length + s.kwonly.length
+    ∧ b.rest = args.drop s.pos.length
+    ∧ (s.varargs = false → b.rest = [])
+    ∧ (s.varkw = false → b.extra = []) := by
   unfold Sig.bind at hb
   simp only at hb
   split at hb
@@ -90,11 +250,22 @@ theorem key_of_bind (s : Sig) (args : List Nat) (kw : List (Nat × Nat)) (b : Bi
       · rename_i filled hf
         split at hb
         · contradiction
-        · injection hb with hb
+        · rename_i hex
+          have hex' : (!(sortPairs (kw.filter fun p => !s.argNames.contains p.1 || s.poNames.contains p.1)).isEmpty && !s.varkw) = false := by
+            simpa using hex
+          obtain ⟨hkwN, hext⟩ := flat_kw s kw hs hex'
+          rw [hkwN] at hf
+          have hvk : s.varkw = false → extras kw s.argNames = [] := by
+            intro hv
+            rw [← hext]
+            simpa [hv] using hex'
+          injection hb with hb
           subst hb
-          simp only [Sig.key, getArgsTuple, Sig.argNames]
+          simp only [hext]
+          simp only [Sig.key, getArgsTuple]
           by_cases hle : args.length ≤ s.pos.length
-          · have hd : (s.posNames ++ s.kwNames).drop args.length = s.posNames.drop args.length ++ s.kwNames := by
+          · have hd : s.argNames.drop args.length = s.posNames.drop args.length ++ s.kwNames := by
+              simp only [Sig.argNames]
               apply List.drop_append_of_le_length
               simpa [Sig.posNames] using hle
             rw [hd, hf]
@@ -103,17 +274,16 @@ theorem key_of_bind (s : Sig) (args : List Nat) (kw : List (Nat × Nat)) (b : Bi
             have ht : args.take s.pos.length = args := List.take_of_length_le hle
             have hdr : args.drop s.pos.length = [] := List.drop_of_length_le hle
             simp only [ht, hdr, List.append_nil, List.map_append, List.length_append]
-            refine ⟨trivial, ?_⟩
-            omega
+            exact ⟨trivial, by omega, trivial, fun _ => trivial, hvk⟩
           · have hva : s.varargs = true := by
               simp only [Bool.and_eq_true, decide_eq_true_eq, Bool.not_eq_true', not_and, Bool.not_eq_false] at h1
               exact h1 (by omega)
             have hk : s.kwonly = [] := by
-              simp only [Sig.ok, hva, Bool.not_true, Bool.false_or, List.isEmpty_iff] at hs
-              exact hs
-            have hd1 : (s.posNames ++ s.kwNames).drop args.length = [] := by
+              simp only [Sig.flat, hva, Bool.not_true, Bool.false_or, Bool.and_eq_true, List.isEmpty_iff] at hs
+              exact hs.1
+            have hd1 : s.argNames.drop args.length = [] := by
               apply List.drop_of_length_le
-              simp [Sig.posNames, Sig.kwNames, hk]; omega
+              simp [Sig.argNames, Sig.posNames, Sig.kwNames, hk]; omega
             have hd2 : s.posNames.drop args.length = [] := by
               apply List.drop_of_length_le
               simp [Sig.posNames]; omega
@@ -123,10 +293,9 @@ theorem key_of_bind (s : Sig) (args : List Nat) (kw : List (Nat × Nat)) (b : Bi
             subst hf'
             simp only [hd1, fill, List.map_nil, List.append_nil, List.take_append_drop, hk, List.length_nil,
               Nat.add_zero, List.length_take]
-            refine ⟨trivial, ?_⟩
-            omega
+            exact ⟨trivial, by omega, trivial, fun h => by simp [hva] at h, hvk⟩
 
-/-- a call that binds never makes the keygetter raise -/
+/-- a call that binds never makes the keygetter raise (whatever the signature) -/
 theorem key_ok_of_bind (s : Sig) (args : List Nat) (kw : List (Nat × Nat)) (b : Binding)
     (hb : s.bind args kw = .ok b) : ∃ tup, s.key args kw = .ok tup := by
   unfold Sig.bind at hb
@@ -137,7 +306,8 @@ theorem key_ok_of_bind (s : Sig) (args : List Nat) (kw : List (Nat × Nat)) (b :
     · contradiction
     · split at hb
       · contradiction
-      · rename_i filled hf
+      · rename_i filled hf0
+        obtain ⟨filled', hf⟩ := fill_mono kw (fun nm => !s.poNames.contains nm) s.defaults _ filled hf0
         simp only [Sig.key, getArgsTuple, Sig.argNames]
         by_cases hle : args.length ≤ s.pos.length
         · have hd : (s.posNames ++ s.kwNames).drop args.length = s.posNames.drop args.length ++ s.kwNames := by
@@ -154,25 +324,58 @@ theorem key_ok_of_bind (s : Sig) (args : List Nat) (kw : List (Nat × Nat)) (b :
           rw [hd, fill_drop_ok _ _ _ _ _ hf]
           exact ⟨_, rfl⟩
 
-/-- **key normalisation** on faithful signatures: two calls that bind have the same key iff they bind the same -/
-theorem key_eq_iff_bind_eq (s : Sig) (hs : s.ok = true) (a1 a2 : List Nat) (k1 k2 : List (Nat × Nat))
+/-- **key normalisation** for calls on which the default key is faithful (`callOk`): two calls that bind have the
+    same key iff they bind the same -/
+theorem key_eq_iff_bind_eq (s : Sig) (a1 a2 : List Nat) (k1 k2 : List (Nat × Nat))
+    (h1 : callOk s a1 = true) (h2 : callOk s a2 = true)
     (b1 b2 : Binding) (t1 t2 : List KeyElem)
     (hb1 : s.bind a1 k1 = .ok b1) (hb2 : s.bind a2 k2 = .ok b2)
     (ht1 : s.key a1 k1 = .ok t1) (ht2 : s.key a2 k2 = .ok t2) :
     t1 = t2 ↔ b1 = b2 := by
-  obtain ⟨e1, l1⟩ := key_of_bind s a1 k1 b1 hs hb1
-  obtain ⟨e2, l2⟩ := key_of_bind s a2 k2 b2 hs hb2
+  simp only [callOk, Bool.and_eq_true, Bool.or_eq_true, Bool.not_eq_true', Bool.and_eq_false_iff] at h1 h2
+  obtain ⟨e1, l1, r1, va1, vk1⟩ := key_of_bind s a1 k1 b1 h1.1 hb1
+  obtain ⟨e2, l2, r2, va2, vk2⟩ := key_of_bind s a2 k2 b2 h2.1 hb2
   rw [e1] at ht1; rw [e2] at ht2
   injection ht1 with ht1; injection ht2 with ht2
   subst ht1; subst ht2
   constructor
   · intro h
-    obtain ⟨h1, h2⟩ := split_v_kw _ _ _ _ h
-    have := List.append_inj h1 (by omega)
+    simp only [List.map_append, List.append_assoc] at h
+    obtain ⟨hp, hre⟩ := List.append_inj h (by simp; omega)
+    have hp' := map_ofVal_inj _ _ hp
+    have hrest : b1.rest = b2.rest ∧ b1.extra = b2.extra := by
+      by_cases hva : s.varargs = false
+      · rw [va1 hva, va2 hva] at hre ⊢
+        simp only [List.map_nil, List.nil_append] at hre
+        exact ⟨rfl, map_kw_inj _ _ hre⟩
+      · by_cases hvk : s.varkw = false
+        · rw [vk1 hvk, vk2 hvk] at hre ⊢
+          simp only [List.map_nil, List.append_nil] at hre
+          exact ⟨map_ofVal_inj _ _ hre, rfl⟩
+        · have hva' : s.varargs = true := by simpa using hva
+          have hvk' : s.varkw = true := by simpa using hvk
+          have n1 : noPair a1 = true := by
+            cases h1.2 with
+            | inl h => cases h with
+              | inl h => rw [hva'] at h; contradiction
+              | inr h => rw [hvk'] at h; contradiction
+            | inr h => exact h
+          have n2 : noPair a2 = true := by
+            cases h2.2 with
+            | inl h => cases h with
+              | inl h => rw [hva'] at h; contradiction
+              | inr h => rw [hvk'] at h; contradiction
+            | inr h => exact h
+          rw [map_ofVal_noPair b1.rest (by rw [r1]; exact noPair_drop _ _ n1),
+              map_ofVal_noPair b2.rest (by rw [r2]; exact noPair_drop _ _ n2)] at hre
+          exact split_v_kw _ _ _ _ hre
     cases b1; cases b2
     simp_all
   · intro h; rw [h]
 
+theorem callOk_of_ok (s : Sig) (args : List Nat) (h : s.ok = true) : callOk s args = true := by
+  simp only [Sig.ok, Bool.and_eq_true, Bool.not_eq_true'] at h
+  simp [callOk, h.1, h.2]
 
 /-! ## dict lemmas -/
 
@@ -203,22 +406,76 @@ theorem mget_mset {κ : Type} [DecidableEq κ] (m : List (κ × Nat)) (x y : κ)
   · have : ¬ y = x := fun h' => h h'.symm
     simp [h, this]
 
+/-! ## the observer's sets of possible table states -/
+
+theorem pget_pset (m : List (RKey × List (Option Nat))) (x y : RKey) (P : List (Option Nat)) :
+    pget (pset m x P) y = if y = x then P else pget m y := by
+  simp only [pset, pget]
+  by_cases h : x = y
+  · subst h; simp
+  · have h' : ¬ y = x := fun e => h e.symm
+    simp only [h, h', ↓reduceIte]
+    induction m with
+    | nil => rfl
+    | cons e m ih =>
+      obtain ⟨k, Q⟩ := e
+      simp only [List.filter_cons]
+      by_cases hk : k = x
+      · subst hk
+        simp only [decide_true, Bool.not_true, Bool.false_eq_true, ↓reduceIte, pget, h, ih]
+      · simp only [hk, decide_false, Bool.not_false, ↓reduceIte, pget, ih]
+
+theorem pget_ploosen_mono (m : List (RKey × List (Option Nat))) (fn th : Nat) (rk : RKey) (o : Option Nat)
+    (h : o ∈ pget m rk) : o ∈ pget (ploosen m fn th) rk := by
+  induction m with
+  | nil => exact h
+  | cons e m ih =>
+    obtain ⟨k, Q⟩ := e
+    simp only [ploosen, List.map_cons] at ih ⊢
+    by_cases hk : k = rk
+    · subst hk
+      simp only [pget, ↓reduceIte] at h
+      split
+      · simp only [pget, ↓reduceIte]
+        exact List.mem_cons_of_mem _ h
+      · simp only [pget, ↓reduceIte]
+        exact h
+    · simp only [pget, hk, ↓reduceIte] at h
+      split
+      · simp only [pget, hk, ↓reduceIte]
+        exact ih h
+      · simp only [pget, hk, ↓reduceIte]
+        exact ih h
+
+theorem pget_ploosen_none (m : List (RKey × List (Option Nat))) (fn th : Nat) (rk : RKey)
+    (hf : rk.fn = fn) (ht : rk.th = th) : none ∈ pget (ploosen m fn th) rk := by
+  induction m with
+  | nil => simp [ploosen, pget]
+  | cons e m ih =>
+    obtain ⟨k, Q⟩ := e
+    simp only [ploosen, List.map_cons] at ih ⊢
+    by_cases hk : k = rk
+    · subst hk
+      simp [hf, ht, pget]
+    · split
+      · simp only [pget, hk, ↓reduceIte]
+        exact ih
+      · simp only [pget, hk, ↓reduceIte]
+        exact ih
+
 /-! ## the simulation -/
 
-/-- `k` is the table key and `rk` the reference key of one and the same well-formed call -/
+/-- `k` is the table key and `rk` the reference key of one and the same well-formed call on which the default key
+    is faithful -/
 def KeyRel (fns : List FnDecl) (k : Key) (rk : RKey) : Prop :=
   k.fn = rk.fn ∧ k.th = rk.th ∧
-    ∃ d args kw, fns[rk.fn]? = some d ∧ d.sig.bind args kw = .ok rk.b ∧ d.sig.key args kw = .ok k.tup
+    ∃ d args kw, fns[rk.fn]? = some d ∧ callOk d.sig args = true ∧ d.sig.bind args kw = .ok rk.b ∧
+      d.sig.key args kw = .ok k.tup
 
-theorem sig_ok_of (fns : List FnDecl) (hs : sigsOk fns = true) (i : Nat) (d : FnDecl) (h : fns[i]? = some d) :
-    d.sig.ok = true := by
-  simp only [sigsOk, List.all_eq_true] at hs
-  exact hs d (List.mem_of_getElem? h)
-
-theorem keyrel_inj (fns : List FnDecl) (hs : sigsOk fns = true) (k k' : Key) (rk rk' : RKey)
+theorem keyrel_inj (fns : List FnDecl) (k k' : Key) (rk rk' : RKey)
     (h : KeyRel fns k rk) (h' : KeyRel fns k' rk') : k = k' ↔ rk = rk' := by
-  obtain ⟨f1, t1, d, a, kw, hd, hb, hk⟩ := h
-  obtain ⟨f2, t2, d', a', kw', hd', hb', hk'⟩ := h'
+  obtain ⟨f1, t1, d, a, kw, hd, hc, hb, hk⟩ := h
+  obtain ⟨f2, t2, d', a', kw', hd', hc', hb', hk'⟩ := h'
   constructor
   · intro e
     subst e
@@ -226,7 +483,7 @@ theorem keyrel_inj (fns : List FnDecl) (hs : sigsOk fns = true) (k k' : Key) (rk
     rw [← hf, hd] at hd'
     injection hd' with hd'
     subst hd'
-    have := (key_eq_iff_bind_eq d.sig (sig_ok_of fns hs _ _ hd) a a' kw kw' rk.b rk'.b k.tup k.tup hb hb' hk hk').mp rfl
+    have := (key_eq_iff_bind_eq d.sig a a' kw kw' hc hc' rk.b rk'.b k.tup k.tup hb hb' hk hk').mp rfl
     cases rk; cases rk'
     simp_all
   · intro e
@@ -234,27 +491,27 @@ theorem keyrel_inj (fns : List FnDecl) (hs : sigsOk fns = true) (k k' : Key) (rk
     rw [hd] at hd'
     injection hd' with hd'
     subst hd'
-    have := (key_eq_iff_bind_eq d.sig (sig_ok_of fns hs _ _ hd) a a' kw kw' rk.b rk.b k.tup k'.tup hb hb' hk hk').mpr rfl
+    have := (key_eq_iff_bind_eq d.sig a a' kw kw' hc hc' rk.b rk.b k.tup k'.tup hb hb' hk hk').mpr rfl
     cases k; cases k'
     simp_all
 
 structure TRel (fns : List FnDecl) (t : Task) (x : WTask) : Prop where
   running : t.running = true → x.running = true
   done : x.done = t.out.isSome
-  reg : x.reg = t.reg
+  started : x.started = t.started
   b : x.rk.b = t.b
   key : KeyRel fns t.key x.rk
 
 structure Rel (fns : List FnDecl) (s : St) (w : Watch) : Prop where
   len : w.info.length = s.tasks.length
   pt : ∀ (i : Nat) (t : Task) (x : WTask), s.tasks[i]? = some t → w.info[i]? = some x → TRel fns t x
-  agree : ∀ (k : Key) (rk : RKey), KeyRel fns k rk → mget s.table k = mget w.ref rk
+  /-- the state of every table entry is among those the observer holds possible -/
+  agree : ∀ (k : Key) (rk : RKey), KeyRel fns k rk → mget s.table k ∈ pget w.poss rk
   wf : ∀ (k : Key) (t : Nat), mget s.table k = some t →
     ∃ task, s.tasks[t]? = some task ∧ task.key = k ∧ task.reg = true ∧ task.out = none
-  live : w.gaveUp = false
 
 theorem rel_init (fns : List FnDecl) : Rel fns St.init Watch.init := by
-  constructor <;> simp [St.init, Watch.init, mget]
+  constructor <;> simp [St.init, Watch.init, mget, pget]
 
 /-- both sides know the same tokens -/
 theorem rel_info (fns : List FnDecl) (s : St) (w : Watch) (h : Rel fns s w) (t : Nat) (task : Task)
@@ -306,8 +563,6 @@ theorem rel_set (fns : List FnDecl) (s : St) (w : Watch) (h : Rel fns s w) (t : 
       · rw [hreg, hra]
       · rw [ho, hoa]
     · exact ⟨a, by simp [hi, ha], hka, hra, hoa⟩
-  · exact h.live
-
 
 /-- updating the observer's record of task `t` alone -/
 theorem rel_wset (fns : List FnDecl) (s : St) (w : Watch) (h : Rel fns s w) (t : Nat) (task : Task) (x x' : WTask)
@@ -329,6 +584,5 @@ theorem rel_wset (fns : List FnDecl) (s : St) (w : Watch) (h : Rel fns s w) (t :
       exact h.pt i a y ha hy
   · exact h.agree
   · exact h.wf
-  · exact h.live
 
 end AsynqModel.Dedup
